@@ -767,6 +767,23 @@ def r_shuf(ctx):
                             cols.setdefault(j_, []).append((nd, val))
                     else:
                         other.append((nd, tg))
+                elif tg[0] == 'sub' and idx is not None and idx[0] == 'tuple' and len(idx) == 3 and \
+                        idx[1] == ('slice', NONE, NONE, NONE) and \
+                        len({x for x in walk_term(idx[2]) if x[0] == 'iter' and is_call(x[1], 'builtins.range')}) == 1:
+                    # table[:, E(j)] = V(j) for j in range(..): column and value evaluated for every j
+                    it_ = next(x for x in walk_term(idx[2]) if x[0] == 'iter' and is_call(x[1], 'builtins.range'))
+                    rv = feval(it_[1], lambda x: UNKNOWN)
+                    done_ = rv is not UNKNOWN
+                    if done_:
+                        for j_ in rv:
+                            c_ = feval(idx[2], lambda x, j_=j_: j_ if x == it_ else UNKNOWN)
+                            v_ = feval(val, lambda x, j_=j_: j_ if x == it_ else UNKNOWN)
+                            if c_ is UNKNOWN or v_ is UNKNOWN or isinstance(c_, bool) or not isinstance(c_, int):
+                                done_ = False
+                                break
+                            cols.setdefault(c_ + 4 if -4 <= c_ < 0 else c_, []).append((nd, ('c', v_)))
+                    if not done_:
+                        other.append((nd, tg))
                 elif tg[0] == 'sub' and idx is not None and idx[0] == 'slice' and idx == ('slice', NONE, NONE, NONE):
                     pass        # whole-table broadcast: judged by rows-start-as-identity
                 elif tg[0] == 'sub' and idx is not None and idx[0] != 'tuple' and isinstance(d.extra.value, ast.Name):
